@@ -123,6 +123,8 @@ def bfs(spec, ctx, max_depth, batch=8, state_cap=None):
     capped = False
     samples = []
     terminal = set()
+    known = run.load_known(ctx.prop)
+    stopped_on_violation = False
     while frontier:
         if depth >= max_depth:
             break
@@ -150,10 +152,15 @@ def bfs(spec, ctx, max_depth, batch=8, state_cap=None):
         if nxt and len(samples) < 4:
             samples.append(nxt[len(nxt) // 2])
         frontier = nxt
+        if any(v["sig"] not in known for v in viols):
+            # BFS reaches shortest counterexamples first: once a level produced a violation that is
+            # not a listed finding the verdict is decided; deeper levels would only add longer witnesses
+            stopped_on_violation = True
+            break
         if state_cap and len(seen) > state_cap:
             capped = True
             break
-    if not frontier:
+    if not frontier and not stopped_on_violation:
         closure = True
     ctx.extend(viols)
     c = ctx.cov
@@ -167,7 +174,7 @@ def bfs(spec, ctx, max_depth, batch=8, state_cap=None):
     c.setdefault("bfs_runs", []).append(
         {"name": getattr(spec, "name", type(spec).__name__), "states": len(seen), "transitions": transitions,
          "terminal_states_checked_not_expanded": len(terminal - set(seen)),
-         "closure_reached": closure, "depth_completed": depth, "state_cap_hit": capped,
+         "closure_reached": closure, "depth_completed": depth, "state_cap_hit": capped, "stopped_after_first_violating_level": stopped_on_violation,
          "per_operation_transitions": per_op})
     c["closure_reached"] = closure and c.get("closure_reached", True)
     c["max_depth"] = max(depth, c.get("max_depth", 0))
